@@ -3,6 +3,8 @@
 (* Container transforms as actions on an abstract file (C10):              *)
 (*   Wrap      CARv1 -> CARv2 (pragma, header, unmodified payload, index)  *)
 (*   Extract   CARv2 -> its payload, whatever the destination held before  *)
+(*             (absent, a larger file, the source itself -- also when it   *)
+(*             is named through another spelling or a symbolic link)       *)
 (*   Replace   roots replaced in place iff the new header has equal length *)
 (* The file is an archive record of ArchiveOps; the payload bytes are a    *)
 (* function of (roots, secs).  TLC checks that no action ever changes the  *)
@@ -49,7 +51,7 @@ Replace(r) ==
     ELSE Step([op |-> "replace", roots |-> r], "err", f)       \* refused, file untouched
 
 Next == \/ \E c \in {"mh", "sorted"} : Wrap(c)
-        \/ \E d \in {"absent", "larger", "same"} : Extract(d)
+        \/ \E d \in {"absent", "larger", "same", "alias", "symlink"} : Extract(d)      \* alias / symlink: the source itself, named otherwise
         \/ \E r \in ReplRoots : Replace(r)
 Spec == Init /\ [][Next]_vars
 
